@@ -98,6 +98,21 @@ def new_dir(tag="w"):
     return path
 
 
+def sweep_stale_scratch():
+    """Remove scratch directories left behind by workers that were killed (their pid is gone)."""
+    base = os.environ.get("VERIF_SCRATCH") or ("/dev/shm" if os.path.isdir("/dev/shm") else "/tmp")
+    try:
+        names = os.listdir(base)
+    except OSError:
+        return
+    for name in names:
+        if not name.startswith("bumpver-verif-"):
+            continue
+        pid = name.rsplit("-", 1)[-1]
+        if pid.isdigit() and not os.path.exists("/proc/%s" % pid):
+            shutil.rmtree(os.path.join(base, name), ignore_errors=True)
+
+
 def cleanup_scratch():
     root = os.path.join(
         os.environ.get("VERIF_SCRATCH") or ("/dev/shm" if os.path.isdir("/dev/shm") else "/tmp"),
